@@ -310,9 +310,13 @@ package bgp
 //@ func (*TunnelEncapSubTLVUnknown).DecodeFromBytes
 //@   claims bounds div0 make post
 //@   ensures result != nil ==> isMsgErr(result)
+// renderability (C05 "once accepted ... String, JSON and Flat views are always produced", and it can be sent on):
+// an accepted VPLS NLRI has its route distinguisher - Serialize and String read it
 //@ func (*VPLSNLRI).decodeFromBytes
 //@   claims bounds div0 make post
+//@   requires n != nil
 //@   ensures result != nil ==> isMsgErr(result)
+//@   ensures result == nil ==> n.rd != nil
 //@ func (*flowSpecMac).DecodeFromBytes
 //@   claims bounds div0 make post
 //@   ensures result != nil ==> isMsgErr(result)
